@@ -34,6 +34,20 @@ pub enum Act {
     External { by: usize, resync: bool },
     /// an observer acting as the group's external sender proposes a Remove / an Add (C16)
     ExternalPropose { remove: bool },
+    /// deviation: `loser` builds a commit of its own first (left pending; with an Add when
+    /// `loser_adds`), then the round of `by` wins the epoch and the loser receives it
+    Raced { by: usize, spec: CommitSpec, loser: usize, loser_adds: bool },
+    /// deviation: the committer receives its own commit back from the delivery service instead
+    /// of calling apply_pending_commit
+    Echoed { by: usize, spec: CommitSpec },
+}
+
+/// How a commit round departs from the default environment.
+#[derive(Clone, Copy, Debug, PartialEq, Eq)]
+pub enum Dev {
+    None,
+    Race { loser: usize, adds: bool },
+    Echo,
 }
 
 #[derive(Clone)]
@@ -44,6 +58,8 @@ pub struct HState {
     /// handshake messages of the last round (for wrong-epoch replays)
     pub last_round_msgs: Vec<MlsMessage>,
     pub obs: super::c16::ObsState,
+    /// deviating rounds taken so far on this path
+    pub deviations: u8,
 }
 
 #[derive(Clone, Debug, PartialEq, Eq)]
@@ -63,6 +79,8 @@ pub struct HistoryModel {
     /// which gallery seeds (by name) to use; empty = all
     pub seeds: Vec<&'static str>,
     pub all_proposers: bool,
+    /// deviation bound K: at most this many deviating rounds (Raced / Echoed) per path
+    pub max_deviations: u8,
 }
 
 fn commit_spec(props: Vec<Prop>) -> CommitSpec {
@@ -75,7 +93,7 @@ impl HistoryModel {
         for p in 0..self.n_parties {
             w.set_psk(p, 0, b"psk-zero-value".to_vec());
         }
-        HState { w, pending_adds: vec![], last_round_msgs: vec![], obs: Default::default() }
+        HState { w, pending_adds: vec![], last_round_msgs: vec![], obs: Default::default(), deviations: 0 }
     }
 
     /// Scripted seed: apply a list of rounds through the same step function (oracles included).
@@ -304,8 +322,28 @@ impl HistoryModel {
         });
     }
 
-    fn do_commit(&self, s: &mut HState, by: usize, spec: &CommitSpec, ctx: &mut Ctx) -> Step {
+    fn do_commit(&self, s: &mut HState, by: usize, spec: &CommitSpec, dev: Dev, ctx: &mut Ctx) -> Step {
+        if dev != Dev::None {
+            s.deviations += 1;
+        }
         let w = &mut s.w;
+        if let Dev::Race { loser, adds } = dev {
+            // the loser's commit is built first and stays pending
+            let lspec = match (adds, w.outsiders().first()) {
+                (true, Some(o)) => commit_spec(vec![Prop::Add(*o)]),
+                _ => commit_spec(vec![]),
+            };
+            match w.commit(loser, &lspec) {
+                Ok(_) => {
+                    w.parties[loser].pending_rekey = None;
+                    ctx.goal("race");
+                }
+                Err(e) => {
+                    ctx.outcome(format!("race:loser-build-err:{}", err_name(&e)));
+                    return Step::Stop;
+                }
+            }
+        }
         let pre_members = w.members();
         let pre_epoch = w.g(by).current_epoch();
         let prev_tree_bytes = tree_bytes(w.g(by));
@@ -369,9 +407,40 @@ impl HistoryModel {
                 }
             }
         }
-        if let Err(e) = w.apply(by) {
-            ctx.violation_for("C01", format!("apply-pending-failed|{}", err_name(&e)), format!("{} cannot apply its own pending commit: {e:?}", w.parties[by].name));
+        let applied = if dev == Dev::Echo {
+            ctx.goal("echo");
+            match w.process(by, &msg) {
+                Ok(ReceivedMessage::Commit(_)) => {
+                    if let Some((sk, id)) = w.parties[by].pending_rekey.take() {
+                        w.set_signer(by, sk, id);
+                    }
+                    Ok(())
+                }
+                Ok(_) => {
+                    ctx.violation_for("C11", "own-commit-echo-reported-as-other-kind", "the committer's own commit came back as another message kind");
+                    ctx.violation_for("C01", "own-commit-echo-reported-as-other-kind", "the committer's own commit came back as another message kind");
+                    return Step::Stop;
+                }
+                Err(e) => Err(e),
+            }
+        } else {
+            w.apply(by).map(|_| ())
+        };
+        if let Err(e) = applied {
+            let how = if dev == Dev::Echo { "echo-of-own-commit-failed" } else { "apply-pending-failed" };
+            ctx.violation_for("C01", format!("{how}|{}", err_name(&e)), format!("{} cannot apply its own pending commit: {e:?}", w.parties[by].name));
+            ctx.violation_for("C11", format!("{how}|{}", err_name(&e)), format!("{} cannot apply its own pending commit: {e:?}", w.parties[by].name));
             return Step::Stop;
+        }
+        if w.g(by).has_pending_commit() {
+            ctx.violation_for("C11", "pending-survives-own-epoch-change", "the committer still has a pending commit after its commit took effect");
+        }
+        if let Dev::Race { loser, .. } = dev {
+            if w.is_member(loser) && w.g(loser).has_pending_commit() {
+                let det = format!("{} still holds its pending commit of epoch {pre_epoch} after processing the winning commit of {}", w.parties[loser].name, w.parties[by].name);
+                ctx.violation_for("C11", "pending-survives-foreign-commit", det.clone());
+                ctx.violation_for("C01", "pending-survives-foreign-commit", det);
+            }
         }
         if w.g(by).current_epoch() != pre_epoch + 1 {
             ctx.violation_for("C01", "epoch-not-plus-one", format!("committer went from epoch {pre_epoch} to {}", w.g(by).current_epoch()));
@@ -604,7 +673,9 @@ impl HistoryModel {
 
     fn apply_act(&self, s: &mut HState, a: &Act, ctx: &mut Ctx) -> Step {
         let step = match a {
-            Act::Commit { by, spec } => self.do_commit(s, *by, spec, ctx),
+            Act::Commit { by, spec } => self.do_commit(s, *by, spec, Dev::None, ctx),
+            Act::Raced { by, spec, loser, loser_adds } => self.do_commit(s, *by, spec, Dev::Race { loser: *loser, adds: *loser_adds }, ctx),
+            Act::Echoed { by, spec } => self.do_commit(s, *by, spec, Dev::Echo, ctx),
             Act::Propose { by, prop } => self.do_propose(s, *by, Some(prop), ctx),
             Act::ProposeUpdate { by } => self.do_propose(s, *by, None, ctx),
             Act::External { by, resync } => self.do_external(s, *by, *resync, ctx),
@@ -675,6 +746,16 @@ impl Model for HistoryModel {
                 specs.push(vec![Custom(1)]);
             }
             for props in specs {
+                if s.deviations < self.max_deviations {
+                    // the loser is the next member in index order; it races with and without an Add
+                    if let Some(&loser) = others.iter().find(|m| **m > by).or(others.first()) {
+                        v.push(Act::Raced { by, spec: commit_spec(props.clone()), loser, loser_adds: false });
+                        if o1.is_some() {
+                            v.push(Act::Raced { by, spec: commit_spec(props.clone()), loser, loser_adds: true });
+                        }
+                    }
+                    v.push(Act::Echoed { by, spec: commit_spec(props.clone()) });
+                }
                 v.push(Act::Commit { by, spec: commit_spec(props) });
             }
             if full {
